@@ -297,6 +297,9 @@ class _Run:
             return sym.intc(int(c["int"]), ty)
         if "def_pretty" in c and "promoted" not in c:
             return mk("constdef", (c["def_pretty"], ty))
+        if "promoted" in c and len(c.get("promoted_of", [])) == 1 and ty.startswith("&"):
+            # `&NAMED_CONST` promoted to a static: the reference to that constant
+            return mk("constdef", (c["promoted_of"][0], ty[1:].lstrip("'static ").strip()))
         return sym.const(ty, c["val"])
 
     def operand(self, st, o):
